@@ -238,13 +238,24 @@ struct Scenario : public TestChain100Setup {
             LOCK(m_node.chainman->GetMutex());
             const CChain& c = m_node.chainman->ActiveChain();
             bool first = true;
+            std::set<Txid> referenced;
+            for (const auto& n : order) {
+                const Known& k = known.at(by_name.at(n));
+                if (!k.coinbase) for (const auto& in : k.tx->vin) referenced.insert(in.prevout.hash);
+            }
+            for (int h = 1; h <= 100 && h <= c.Height(); ++h) {
+                // the initial (external) coinbases that something spends
+                if (!referenced.count(m_coinbase_txns.at(h - 1)->GetHash())) continue;
+                s += std::string(first ? "" : ";") + std::to_string(h) + ":cb" + std::to_string(h);
+                first = false;
+            }
             for (int h = 101; h <= c.Height(); ++h) {
                 auto it = block_names.find(c[h]->GetBlockHash());
                 std::string names;
                 if (it != block_names.end()) {
                     for (const auto& n : it->second) {
                         const Known& k = known.at(by_name.at(n));
-                        if (k.coinbase && !pays_wallet(*k.tx)) continue;   // external coinbase: irrelevant to the wallet
+                        if (k.coinbase && !pays_wallet(*k.tx) && !referenced.count(k.tx->GetHash())) continue;   // unspent external coinbase: irrelevant
                         names += (names.empty() ? "" : ",") + n;
                     }
                 }
